@@ -187,13 +187,13 @@ func (t FTy) toProto(env EnumEnv) *schema_j5pb.Field {
 		return &schema_j5pb.Field{Type: &schema_j5pb.Field_Any{Any: f}}
 	case TObject:
 		of := &schema_j5pb.ObjectField{
-			Schema: &schema_j5pb.ObjectField_Ref{Ref: &schema_j5pb.Ref{Package: "foo.v1", Schema: "Bar"}}, Flatten: t.Flatten}
+			Schema: &schema_j5pb.ObjectField_Ref{Ref: &schema_j5pb.Ref{Package: "foo.v1", Schema: t.refName()}}, Flatten: t.Flatten}
 		if r := t.ObjR; r != nil {
 			of.Rules = &schema_j5pb.ObjectField_Rules{MinProperties: r.Min, MaxProperties: r.Max}
 		}
 		return &schema_j5pb.Field{Type: &schema_j5pb.Field_Object{Object: of}}
 	case TOneof:
-		f := &schema_j5pb.OneofField{Schema: &schema_j5pb.OneofField_Ref{Ref: &schema_j5pb.Ref{Package: "foo.v1", Schema: "Choice"}}}
+		f := &schema_j5pb.OneofField{Schema: &schema_j5pb.OneofField_Ref{Ref: &schema_j5pb.Ref{Package: "foo.v1", Schema: t.refName()}}}
 		if t.OneofR {
 			f.Rules = &schema_j5pb.OneofField_Rules{}
 		}
@@ -326,12 +326,19 @@ func ftyFromProto(f *schema_j5pb.Field) (FTy, bool) {
 		return FTy{Kind: TAny, AnyOD: t.Any.OnlyDefined, AnyT: t.Any.Types, List: lpayFromMsg(t.Any.ListRules)}, true
 	case *schema_j5pb.Field_Object:
 		out := FTy{Kind: TObject, Flatten: t.Object.Flatten}
+		if ref := t.Object.GetRef(); ref != nil && ref.Package == "foo.v1" && ref.Schema != "Bar" {
+			out.Ref = ref.Schema // (anything unexpected fails the rebuild check in propFromProto)
+		}
 		if r := t.Object.Rules; r != nil {
 			out.ObjR = &ObjRules{Min: r.MinProperties, Max: r.MaxProperties}
 		}
 		return out, true
 	case *schema_j5pb.Field_Oneof:
-		return FTy{Kind: TOneof, OneofR: t.Oneof.Rules != nil, List: lpayFromMsg(t.Oneof.ListRules)}, true
+		out := FTy{Kind: TOneof, OneofR: t.Oneof.Rules != nil, List: lpayFromMsg(t.Oneof.ListRules)}
+		if ref := t.Oneof.GetRef(); ref != nil && ref.Package == "foo.v1" && ref.Schema != "Choice" {
+			out.Ref = ref.Schema
+		}
+		return out, true
 	}
 	return FTy{}, false
 }
